@@ -22,8 +22,14 @@ VARIABLES l, scen,
           cur,      \* search key -> channel id of the search currently bound to it ("b:"type / "h:"host)
           owedStop, \* channels that are owed a SearchStopped
           down,     \* shutdown was called
+          sched,    \* search key -> [next, gap] : the doubling query schedule of an open search (C19)
+          fu,       \* instance key -> [n, last] : follow-up queries of a found, unresolved instance (C04)
+          verifs,   \* verify calls: {[fnk, hosts, at]}
+          lastT,    \* time of the previous iteration
+          ifs,      \* interface table of the daemon's host
+          arrs,     \* expiry instants of all record arrivals whose lifetime has not passed yet (C20.timers-popped)
           inbox, cmds, viol, hits
-vars == <<l, scen, tab, chan, cur, owedStop, down, inbox, cmds, viol, hits>>
+vars == <<l, scen, tab, chan, cur, owedStop, down, sched, fu, verifs, lastT, ifs, arrs, inbox, cmds, viol, hits>>
 
 Ev == Rec[l]
 T  == Ev.t
@@ -51,9 +57,9 @@ Ingest(t, ds) ==
   IF ds = <<>> THEN t
   ELSE LET d == Head(ds) IN
        IF d.ok /\ d.m.qr
-       THEN LET fu == ForUs(d.m) IN
-            Ingest(ArriveAll(ArriveAll(ArriveAll(t, d.m.an, d["if"], d.t, fu), d.m.ns, d["if"], d.t, fu),
-                             d.m.ar, d["if"], d.t, fu), Tail(ds))
+       THEN LET isfu == ForUs(d.m) IN
+            Ingest(ArriveAll(ArriveAll(ArriveAll(t, d.m.an, d["if"], d.t, isfu), d.m.ns, d["if"], d.t, isfu),
+                             d.m.ar, d["if"], d.t, isfu), Tail(ds))
        ELSE Ingest(t, Tail(ds))
 
 (* ------------------------------ commands -------------------------------- *)
@@ -72,11 +78,14 @@ ApplyCmd(s, c) ==
          [s EXCEPT !.chan = Put([x \in Dom(s.chan) |-> IF x \in old THEN [s.chan[x] EXCEPT !.bound = FALSE] ELSE s.chan[x]],
                                 c.ch, NewBrowse(c)),
                    !.cur = Put(s.cur, k, c.ch),
+                   \* browsing a type again REPLACES the schedule (C19)
+                   !.sched = IF c.fn = "browse_cache" THEN Del(s.sched, {k}) ELSE Put(s.sched, k, [next |-> T, gap |-> 1000, until |-> -1]),
                    !.owedStop = s.owedStop \cup (IF c.fn = "browse_cache" THEN {c.ch} ELSE {})]
     [] c.fn = "stop_browse" /\ c.res = "ok" ->
          LET k == "b:" \o c.args.tyk IN
          IF k \in Dom(s.cur) /\ s.chan[s.cur[k]].bound /\ s.chan[s.cur[k]].ty = c.args.ty
          THEN [s EXCEPT !.tab = Forget(s.tab, c.args.tyk),
+                        !.sched = Del(s.sched, {k}),
                         !.owedStop = s.owedStop \cup {s.cur[k]},
                         !.chan = [x \in Dom(s.chan) |-> IF x = s.cur[k] THEN [s.chan[x] EXCEPT !.bound = FALSE, !.stoppedAt = T] ELSE s.chan[x]]]
          ELSE s
@@ -85,17 +94,22 @@ ApplyCmd(s, c) ==
              old == IF k \in Dom(s.cur) THEN {s.cur[k]} ELSE {} IN
          [s EXCEPT !.chan = Put([x \in Dom(s.chan) |-> IF x \in old THEN [s.chan[x] EXCEPT !.bound = FALSE] ELSE s.chan[x]],
                                 c.ch, NewHost(c)),
+                   !.sched = Put(s.sched, k, [next |-> T, gap |-> 1000, until |-> IF c.args.timeout >= 0 THEN T + c.args.timeout ELSE -1]),
                    !.cur = Put(s.cur, k, c.ch)]
     [] c.fn = "stop_resolve_hostname" /\ c.res = "ok" ->
          LET k == "h:" \o c.args.hostk IN
          IF k \in Dom(s.cur) /\ s.chan[s.cur[k]].bound
          THEN [s EXCEPT !.owedStop = s.owedStop \cup {s.cur[k]},
+                        !.sched = Del(s.sched, {k}),
                         !.chan = [x \in Dom(s.chan) |-> IF x = s.cur[k] THEN [s.chan[x] EXCEPT !.bound = FALSE, !.stoppedAt = T] ELSE s.chan[x]]]
          ELSE s
     [] c.fn = "verify" /\ c.res = "ok" ->
-         [s EXCEPT !.tab = Shorten(s.tab, c.args.fnk, T + c.args.timeout, T)]
+         [s EXCEPT !.tab = Shorten(s.tab, c.args.fnk, T + c.args.timeout, T),
+                   !.verifs = s.verifs \cup {[fnk |-> c.args.fnk,
+                                               hosts |-> {s.tab[id].tk : id \in {x \in Dom(s.tab) : x[1] = "SRV" /\ x[2] = c.args.fnk}},
+                                               at |-> T]}]
     [] c.fn = "shutdown" /\ c.res = "ok" ->
-         [s EXCEPT !.down = TRUE,
+         [s EXCEPT !.down = TRUE, !.sched = <<>>,
                    !.owedStop = s.owedStop \cup {x \in Dom(s.chan) : s.chan[x].bound /\ s.chan[x].kind \in {"browse", "host"}},
                    !.chan = [x \in Dom(s.chan) |-> [s.chan[x] EXCEPT !.bound = FALSE, !.stoppedAt = T]]]
     [] OTHER -> s
@@ -111,7 +125,7 @@ LiveAt(t, tyk, fnk, at) ==
 (* the same, counting only records the daemon had to keep (received in packets that were for it) *)
 LiveForUsAt(t, tyk, fnk, at) ==
   /\ \E p \in PtrIds(t, tyk, fnk, at) : t[p].forus
-  /\ \E id \in SrvIds(t, fnk, at) : t[id].forus /\ \E a \in AddrIds(t, t[id].tk, at) : t[a].forus
+  /\ \E id \in SrvIds(t, fnk, at) : t[id].forus /\ \E a \in AddrIds(t, t[id].tk, at) : t[a].forus /\ at < t[a].vexp
 
 RelatedNewer(t, tyk, fnk, hostk, since) ==
   \E id \in Dom(t) : /\ t[id].at >= since
@@ -169,7 +183,8 @@ StepEv(s, t, e) ==
   ELSE IF c.kind = "host" THEN
     CASE e.k = "SearchStarted" -> upd([c EXCEPT !.st = IF c.st = "fresh" THEN "started" ELSE c.st], afterStop)
       [] e.k = "AddressesFound" ->
-           upd([c EXCEPT !.found = c.found \cup UNION {{<<x.ip, i>> : i \in Range(x.ifs)} : x \in AddrsOf(e)}],
+           upd([c EXCEPT !.found = c.found \cup UNION {{<<x.ip, i>> : i \in Range(x.ifs)} : x \in AddrsOf(e)},
+                         !.ever = c.ever \cup UNION {{<<x.ip, i>> : i \in Range(x.ifs)} : x \in AddrsOf(e)}],
                afterStop \cup first
                \cup V("C17.found-name", e.hostk = c.key, <<"event for another host", e.host, c.key>>)
                \cup V("C17.found", /\ Len(e.addrs) > 0
@@ -181,10 +196,14 @@ StepEv(s, t, e) ==
            upd([c EXCEPT !.found = c.found \ UNION {{<<x.ip, i>> : i \in Range(x.ifs)} : x \in AddrsOf(e)}],
                afterStop \cup first
                \cup V("C17.removed-name", e.hostk = c.key, <<"event for another host", e.host, c.key>>)
-               \cup V("C17.removed", \A x \in AddrsOf(e) : \A i \in Range(x.ifs) :
-                                        ~\E id \in Dom(t) : /\ IsAddrTy(id[1]) /\ id[2] = c.key /\ t[id].ip = x.ip /\ t[id].ifx = i
-                                                            /\ T + 1000 < t[id].exp /\ t[id].ttl # 0,
-                      <<"address reported removed while its record is live", e.addrs>>))
+               \cup UNION {UNION {
+                      LET live == {id \in Dom(t) : /\ IsAddrTy(id[1]) /\ id[2] = c.key /\ t[id].ip = x.ip /\ t[id].ifx = i
+                                                   /\ T + 1000 < t[id].exp /\ T + 1000 < t[id].vexp /\ t[id].ttl # 0}
+                      IN V("C17.removed", live = {},
+                           <<IF \E id \in live : t[id].u # e.host
+                             THEN "address reported removed while its record, last refreshed under another letter case of the host name, is live"
+                             ELSE "address reported removed while its record is live", x.ip, e.host>>)
+                      : i \in Range(x.ifs)} : x \in AddrsOf(e)})
       [] e.k = "SearchTimeout" ->
            [s EXCEPT !.chan = Put(s.chan, e.ch, [c EXCEPT !.st = "timedout", !.bound = FALSE, !.stoppedAt = T]),
                      !.owedStop = s.owedStop \cup {e.ch},
@@ -208,7 +227,7 @@ CompleteForUs(t, tyk, at) ==
   {t[p].tk : p \in {id \in Dom(t) : /\ id[1] = "PTR" /\ id[2] = tyk /\ t[id].forus /\ t[id].ttl # 0 /\ at + 1000 < t[id].exp
                                     /\ \E s \in Dom(t) : /\ s[1] = "SRV" /\ s[2] = t[id].tk /\ t[s].forus /\ t[s].ttl # 0 /\ at + 1000 < t[s].exp
                                                          /\ \E a \in Dom(t) : /\ IsAddrTy(a[1]) /\ a[2] = t[s].tk /\ t[a].forus
-                                                                              /\ t[a].ttl # 0 /\ at + 1000 < t[a].exp
+                                                                              /\ t[a].ttl # 0 /\ at + 1000 < t[a].exp /\ at + 1000 < t[a].vexp
                                     /\ \E x \in Dom(t) : x[1] = "TXT" /\ x[2] = t[id].tk /\ t[x].forus /\ t[x].ttl # 0 /\ at + 1000 < t[x].exp}}
 
 ParkInvariants(ch, t) ==
@@ -233,43 +252,243 @@ ParkInvariants(ch, t) ==
              {p \in c.found : ~\E id \in Dom(t) : IsAddrTy(id[1]) /\ id[2] = c.key /\ t[id].ip = p[1] /\ t[id].ifx = p[2] /\ T < t[id].exp}>>)
          \cup V("C17.found-owed",
                 \A id \in {y \in Dom(t) : IsAddrTy(y[1]) /\ y[2] = c.key /\ t[y].forus /\ t[y].ttl # 0 /\ T + 1000 < t[y].exp /\ t[y].at >= c.at} :
-                   <<t[id].ip, t[id].ifx>> \in c.found,
-                <<"address received for the host but not reported">>)
+                   <<t[id].ip, t[id].ifx>> \in c.ever,
+                <<"address received for the host but not reported", {<<t[id].ip, t[id].ifx>> : id \in {y \in Dom(t) : IsAddrTy(y[1]) /\ y[2] = c.key /\ t[y].forus /\ t[y].ttl # 0 /\ T + 1000 < t[y].exp /\ t[y].at >= c.at}} \ c.ever>>)
          \cup V("C17.timeout-owed", c.deadline < 0 \/ T < c.deadline, <<"resolver past its deadline without SearchTimeout", c.deadline, T>>)
     ELSE {}
     : x \in Dom(ch)}
 
+(* ------------------------------- queries -------------------------------- *)
+(* C19: every question the daemon asks is explained by the doubling schedule *)
+(* of an open search, a refresh mark of a record it needs (C11), one of at   *)
+(* most three follow-ups of a found-but-unresolved instance (C04) or a       *)
+(* verify request; C10 (querier side): known answers it lists.               *)
+Sent == Ev.sent
+Qpk == {i \in 1..Len(Sent) : Sent[i].ok /\ ~Sent[i].m.qr /\ Len(Sent[i].m.ns) = 0}
+(* A and AAAA questions for one name are asked together: one question group "ADDR" *)
+QTy(ty) == IF ty \in {"A", "AAAA"} THEN "ADDR" ELSE ty
+QsOf(i) == {<<Sent[i].m.q[j].n.k, QTy(Sent[i].m.q[j].ty)>> : j \in 1..Len(Sent[i].m.q)}
+AllQ == UNION {QsOf(i) : i \in Qpk}
+Mult(X) == LET paths == {<<Sent[i]["if"], Sent[i].v4>> : i \in Qpk}
+               cnt(p) == Cardinality({i \in Qpk : X \in QsOf(i) /\ <<Sent[i]["if"], Sent[i].v4>> = p})
+           IN IF paths = {} THEN 0 ELSE CHOOSE n \in {cnt(p) : p \in paths} : \A p \in paths : cnt(p) <= n
+
+MarkPcts == {80, 85, 90, 95}
+MarkTime(e, m) == e.at + (LifeMs(e.ttl) \div 100) * m
+DueMarks(e, at) == {m \in MarkPcts \ e.marks : MarkTime(e, m) <= at}
+MinOf(S) == CHOOSE x \in S : \A y \in S : x <= y
+
+SchedKey(X) == IF X[2] = "PTR" THEN "b:" \o X[1] ELSE IF X[2] = "ADDR" THEN "h:" \o X[1] ELSE "-"
+MatchIds(t, X) == {id \in Dom(t) : /\ T < t[id].exp
+                                   /\ \/ (X[2] \in {"PTR", "SRV", "TXT"} /\ id[1] = X[2] /\ id[2] = X[1])
+                                      \/ (X[2] = "ADDR" /\ IsAddrTy(id[1]) /\ id[2] = X[1])}
+
+(* instances that were reported found, whose PTR is still held, and that are *)
+(* not resolved on some bound channel                                       *)
+UnresolvedT(ch, t) ==
+  UNION {{f \in ch[x].ever \ ch[x].resolved : \E id \in Dom(t) : id[1] = "PTR" /\ id[2] = ch[x].key /\ t[id].tk = f /\ T < t[id].exp}
+         : x \in {y \in Dom(ch) : ch[y].kind = "browse" /\ ch[y].bound}}
+(* s : [tab, sched, fu, v] ; X : <<name key, type>> ; one question of this iteration *)
+Explain(s, ch, X) ==
+  LET k == SchedKey(X)
+      schedDue == k \in Dom(s.sched) /\ s.sched[k].next <= T /\ (s.sched[k].until < 0 \/ s.sched[k].next < s.sched[k].until)
+      refIds == {id \in MatchIds(s.tab, X) : DueMarks(s.tab[id], T) # {}}
+      fuInst == X[2] = "ANY" /\ X[1] \in UnresolvedT(ch, s.tab)
+      fuHost == X[2] = "ADDR" /\ \E f \in UnresolvedT(ch, s.tab) : \E id \in Dom(s.tab) : id[1] = "SRV" /\ id[2] = f /\ s.tab[id].tk = X[1]
+      fuKey == IF fuInst THEN X[1] ELSE IF fuHost THEN CHOOSE f \in UnresolvedT(ch, s.tab) : \E id \in Dom(s.tab) : id[1] = "SRV" /\ id[2] = f /\ s.tab[id].tk = X[1] ELSE ""
+      fuOk == (fuInst \/ fuHost) /\ (fuKey \notin Dom(s.fu) \/ (s.fu[fuKey].n < 3 /\ (T >= s.fu[fuKey].last + 500 \/ s.fu[fuKey].last = T)))
+      verOk == \E v \in s.verifs : /\ (T = v.at \/ (lastT < v.at + 1000 /\ v.at + 1000 <= T))
+                                 /\ \/ (X[2] = "SRV" /\ X[1] = v.fnk)
+                                    \/ (X[2] = "ADDR" /\ X[1] \in v.hosts)
+      \* copies of one record under several letter cases of the owner name are refreshed independently
+      caseCopies == \E id \in MatchIds(s.tab, X) : Cardinality(s.tab[id].us) > 1
+      n == (IF schedDue THEN 1 ELSE 0) + Cardinality(refIds) + (IF fuOk THEN 1 ELSE 0) + (IF verOk THEN 1 ELSE 0)
+           + (IF caseCopies THEN 4 ELSE 0)
+      tab2 == [id \in Dom(s.tab) |-> IF id \in refIds THEN [s.tab[id] EXCEPT !.marks = @ \cup {MinOf(DueMarks(s.tab[id], T))}] ELSE s.tab[id]]
+      fu2 == IF fuOk /\ ~schedDue /\ refIds = {} /\ ~verOk
+             THEN Put(s.fu, fuKey, [n |-> IF fuKey \in Dom(s.fu) THEN (IF s.fu[fuKey].last = T THEN s.fu[fuKey].n ELSE s.fu[fuKey].n + 1) ELSE 1, last |-> T])
+             ELSE s.fu
+  IN [s EXCEPT !.tab = tab2, !.fu = fu2,
+               !.used = s.used \cup (IF schedDue THEN {k} ELSE {}),
+               !.v = s.v \cup V("C19.explained", n >= 1, <<"question not explained by schedule, refresh mark, follow-up or verify", X>>)
+                         \cup V("C19.rate", Mult(X) <= (IF n = 0 THEN 1 ELSE n), <<"same question asked more often than explained", X, Mult(X), n>>),
+               !.h = s.h \cup (IF schedDue THEN {"C19.schedule"} ELSE {}) \cup (IF refIds # {} THEN {"C11.refresh"} ELSE {})
+                         \cup (IF fuOk THEN {"C04.followup"} ELSE {}) \cup (IF verOk THEN {"C05.verify-query"} ELSE {})]
+
+RECURSIVE FoldQ(_, _, _)
+FoldQ(s, ch, Xs) == IF Xs = {} THEN s ELSE LET X == CHOOSE x \in Xs : TRUE IN FoldQ(Explain(s, ch, X), ch, Xs \ {X})
+
+(* after the questions: advance the schedules that fired; a search whose     *)
+(* slot is due must have asked (C19.schedule)                                *)
+AdvanceSched(sc, used) ==
+  [k \in Dom(sc) |-> IF k \in used
+                     THEN [sc[k] EXCEPT !.next = T + sc[k].gap, !.gap = IF 2 * sc[k].gap > 3600000 THEN 3600000 ELSE 2 * sc[k].gap]
+                     ELSE sc[k]]
+SchedOwed(sc, used) ==
+  UNION {V("C19.schedule", k \in used, <<"scheduled query of an open search missing", k, sc[k].next, T>>)
+         : k \in {x \in Dom(sc) : sc[x].next <= T /\ (sc[x].until < 0 \/ sc[x].next < sc[x].until)}}
+
+(* C11: a needed record whose 80/85/90/95 % mark fell due since the previous *)
+(* iteration must be asked for now (records received in packets for us only) *)
+NeededIds(t, ch) ==
+  LET bk == {ch[x].key : x \in {y \in Dom(ch) : ch[y].kind = "browse" /\ ch[y].bound /\ ch[y].st = "started" /\ ~ch[y].cacheonly}}
+      ok(id) == T < t[id].exp /\ T < t[id].vexp /\ t[id].forus /\ t[id].ttl > 1
+      ptrs == {id \in Dom(t) : id[1] = "PTR" /\ id[2] \in bk /\ ok(id)}
+      insts == {t[id].tk : id \in ptrs}
+      srvs == {id \in Dom(t) : id[1] = "SRV" /\ id[2] \in insts /\ ok(id)}
+      txts == {id \in Dom(t) : id[1] = "TXT" /\ id[2] \in insts /\ ok(id)}
+      hosts == {t[id].tk : id \in srvs}
+      addrs == {id \in Dom(t) : IsAddrTy(id[1]) /\ id[2] \in hosts /\ ok(id)}
+  IN ptrs \cup srvs \cup txts \cup addrs
+MarksOwed(tBefore, tAfter, ch) ==
+  UNION {
+     LET e == tBefore[id]
+         fell == {m \in MarkPcts \ e.marks : lastT < MarkTime(e, m) /\ MarkTime(e, m) <= T}
+     IN V("C11.marks", fell = {} \/ tAfter[id].marks # e.marks,
+          <<"refresh mark passed without a query", id, fell, T>>)
+     : id \in {x \in NeededIds(tBefore, ch) : x \in Dom(tAfter)}}
+
+(* C10 (querier): known answers listed in own queries                        *)
+KnownAnswerChecks(t) ==
+  UNION {UNION {
+     LET r == Sent[i].m.an[j]
+         ids == {id \in Dom(t) : id[1] = r.ty /\ id[2] = r.n.k /\ id[3] = r.rk}
+         reenc == r.ty = "PTR" /\ \E id \in Dom(t) : id[1] = "PTR" /\ id[2] = r.n.k /\ t[id].tk = r.t.k
+     IN V("C10.known-only", ids # {} /\ \E q \in QsOf(i) : q[1] = r.n.k /\ (q[2] = QTy(r.ty) \/ q[2] = "ANY"),
+          <<IF ids = {} /\ reenc THEN "known answer re-encoded with other labels than received (dot inside a label)"
+            ELSE "known answer that was not received for that question", r.n.k, r.ty, r.rk>>)
+        \cup V("C10.shared", ~r.fl, <<"unique (cache-flush) record listed as known answer", r.n.k, r.ty>>)
+        \cup (IF ids # {} THEN
+                V("C10.halflife", \E id \in ids : 2 * (T - t[id].at) <= LifeMs(t[id].ttl) /\ T < t[id].exp,
+                  <<"known answer past half of its lifetime", r.n.k, r.ty, T>>)
+                \cup V("C10.ttl", \E id \in ids : LET rem == t[id].at + LifeMs(t[id].ttl) - T IN
+                                                 r.ttl * 1000 <= rem + 1000 /\ r.ttl * 1000 + 1000 >= rem,
+                       <<"known answer TTL is not the remaining lifetime", r.n.k, r.ttl, T>>)
+              ELSE {})
+     : j \in 1..Len(Sent[i].m.an)} : i \in Qpk}
+
+(* C04: the daemon's own questions carry the label sequence of the records   *)
+(* it received (names with dots / backslashes inside a label)                *)
+QuestionLabels(t) ==
+  UNION {UNION {
+     LET q == Sent[i].m.q[j]
+         own == {x \in Dom(t) : x[2] = q.n.k}
+         tgt == {x \in Dom(t) : t[x].tk = q.n.k}
+         spell == {t[id].s : id \in own} \cup {t[id].ts : id \in tgt}
+         spellU == {t[id].u : id \in own} \cup {t[id].tu : id \in tgt}
+     IN V("C04.labels-query", spell = {} \/ q.n.sk \in spell,
+          <<IF q.n.u \in spellU THEN "question asked with other labels than the received name (dot inside a label)"
+            ELSE "question asked with another spelling than the received name", q.n.sk, spell>>)
+     : j \in 1..Len(Sent[i].m.q)} : i \in Qpk}
+
+(* C13: a cache-only browse never sends a query for its type                 *)
+CacheOnlyQuiet(ch) ==
+  LET co == {ch[x].key : x \in {y \in Dom(ch) : ch[y].kind = "browse" /\ ch[y].bound /\ ch[y].cacheonly}}
+      live == {ch[x].key : x \in {y \in Dom(ch) : ch[y].kind = "browse" /\ ch[y].bound /\ ~ch[y].cacheonly}}
+  IN UNION {V("C13.cacheonly", ~(X[2] = "PTR" /\ X[1] \in co \ live), <<"query for a type that is only browsed cache-only", X>>) : X \in AllQ}
+
+(* C10.everywhere: a scheduled search query leaves on every interface / family in use *)
+Paths == UNION {{<<x.idx, a.v4>> : a \in Range(x.addrs)} : x \in {y \in Range(ifs) : y.up}}
+Everywhere(used) ==
+  UNION {V("C10.everywhere",
+           \A p \in Paths : \E i \in Qpk : Sent[i]["if"] = p[1] /\ Sent[i].v4 = p[2] /\ \E q \in QsOf(i) : SchedKey(q) = k,
+           <<"search query not sent on every interface / family", k>>) : k \in used}
+
+(* C20: get_metrics against the ground truth                                 *)
+RECURSIVE SumUs(_, _)
+SumUs(t, S) == IF S = {} THEN 0 ELSE LET x == CHOOSE y \in S : TRUE IN Cardinality(t[x].us) + SumUs(t, S \ {x})
+(* one cached record per owner spelling (letter case) is tolerated           *)
+Count(t, tys) == SumUs(t, {id \in Dom(t) : id[1] \in tys /\ lastT < t[id].exp})
+RECURSIVE NewArrivals(_)
+NewArrivals(ds) ==
+  IF ds = <<>> THEN <<>>
+  ELSE LET d == Head(ds) IN
+       (IF d.ok /\ d.m.qr
+        THEN [i \in 1..Len(d.m.an) |-> d.t + LifeMs(d.m.an[i].ttl)] \o [i \in 1..Len(d.m.ns) |-> d.t + LifeMs(d.m.ns[i].ttl)]
+             \o [i \in 1..Len(d.m.ar) |-> d.t + LifeMs(d.m.ar[i].ttl)]
+        ELSE <<>>) \o NewArrivals(Tail(ds))
+
+MetricsChecks(t, ch) ==
+  UNION {
+    LET m == Ev.replies[j].v
+        searches == Cardinality({x \in Dom(ch) : ch[x].bound})
+    IN IF TRUE THEN
+         V("C20.bound", /\ m["cached-ptr"] <= Count(t, {"PTR"}) /\ m["cached-srv"] <= Count(t, {"SRV"})
+                        /\ m["cached-txt"] <= Count(t, {"TXT"}) /\ m["cached-addr"] <= Count(t, {"A", "AAAA"}),
+           <<"more records cached than were received and are still alive",
+             <<m["cached-ptr"], Count(t, {"PTR"})>>, <<m["cached-srv"], Count(t, {"SRV"})>>,
+             <<m["cached-txt"], Count(t, {"TXT"})>>, <<m["cached-addr"], Count(t, {"A", "AAAA"})>>>>)
+         \* per statement: proportional to what searches need, not to the traffic
+         \cup V("C20.timers", m["timer"] <= 8 + 12 * (Cardinality({id \in Dom(t) : lastT < t[id].exp}) + searches) + 3 * Cardinality(Dom(t)),
+                <<"timers grow with the number of record arrivals (two per arrival, kept until due), not with what searches need",
+                  m["timer"], Cardinality({id \in Dom(t) : lastT < t[id].exp}), searches>>)
+         \* everything expired, all searches stopped: nothing but the periodic interface check is left
+         \cup V("C20.empty", (searches = 0 /\ Len(arrs) = 0 /\ {id \in Dom(t) : lastT < t[id].exp} = {})
+                              => (m["timer"] <= 1 /\ m["cached-ptr"] = 0 /\ m["cached-srv"] = 0 /\ m["cached-txt"] = 0
+                                  /\ m["cached-addr"] = 0 /\ m["cached-nsec"] = 0),
+                <<"state left although every TTL has passed and all searches are stopped", m["timer"], m["cached-ptr"], m["cached-srv"],
+                  m["cached-txt"], m["cached-addr"], m["cached-nsec"]>>)
+         \* weaker: even counting every arrival still inside its lifetime, timers that are due get popped
+         \cup V("C20.timers-popped", m["timer"] <= 8 + 12 * (Cardinality({id \in Dom(t) : lastT < t[id].exp}) + searches) + 4 * Len(arrs),
+                <<"timers are not popped / leak", m["timer"], Len(arrs)>>)
+       ELSE {}
+    : j \in {x \in 1..Len(Ev.replies) : Ev.replies[x].k = "metrics"}}
+
 Iter ==
   /\ Ev.e = "iter"
   /\ \E t1 \in {Ingest(tab, inbox)} :
-     \E s1 \in {FoldCmd([tab |-> t1, chan |-> chan, cur |-> cur, owedStop |-> owedStop, down |-> down], cmds)} :
+     \E s1 \in {FoldCmd([tab |-> t1, chan |-> chan, cur |-> cur, owedStop |-> owedStop, down |-> down,
+                         sched |-> sched, verifs |-> verifs], cmds)} :
      \E s2 \in {FoldEv([chan |-> s1.chan, owedStop |-> s1.owedStop, v |-> {}], s1.tab, Ev.events)} :
-       /\ tab' = s1.tab /\ chan' = s2.chan /\ cur' = s1.cur /\ down' = s1.down
+     \E s3 \in {FoldQ([tab |-> s1.tab, sched |-> s1.sched, fu |-> fu, verifs |-> s1.verifs, used |-> {}, v |-> {}, h |-> {}], s2.chan, AllQ)} :
+       /\ tab' = s3.tab /\ cur' = s1.cur /\ down' = s1.down
+       /\ chan' = [x \in Dom(s2.chan) |->
+                     IF s2.chan[x].kind = "host"
+                     THEN [s2.chan[x] EXCEPT !.ever = {p \in @ : \E id \in Dom(s3.tab) : IsAddrTy(id[1]) /\ id[2] = s2.chan[x].key
+                                                                     /\ s3.tab[id].ip = p[1] /\ s3.tab[id].ifx = p[2] /\ T < s3.tab[id].exp}]
+                     ELSE s2.chan[x]]
        /\ owedStop' = s2.owedStop
-       /\ viol' = viol \cup s2.v
-                    \cup (IF Ev.alive THEN ParkInvariants(s2.chan, s1.tab) ELSE {})
+       /\ sched' = AdvanceSched(s1.sched, s3.used)
+       /\ fu' = [k \in Dom(s3.fu) \cap UnresolvedT(s2.chan, s3.tab) |-> s3.fu[k]]
+       /\ verifs' = {v \in s1.verifs : T < v.at + 1001}
+       /\ lastT' = T
+       /\ arrs' = SelectSeq(arrs \o NewArrivals(inbox), LAMBDA x : x > T)
+       /\ viol' = viol \cup s2.v \cup s3.v
+                    \cup (IF Ev.alive /\ ~s1.down THEN ParkInvariants(s2.chan, s1.tab) \cup SchedOwed(s1.sched, s3.used)
+                                                       \cup MarksOwed(s1.tab, s3.tab, s2.chan) ELSE {})
+                    \cup KnownAnswerChecks(s1.tab) \cup Everywhere(s3.used) \cup MetricsChecks(s1.tab, s2.chan)
+                    \cup QuestionLabels(s1.tab) \cup CacheOnlyQuiet(s2.chan)
                     \cup V("C13.stopped-once", s2.owedStop = {}, <<"SearchStopped owed but not delivered in the iteration of the stop", s2.owedStop>>)
-       /\ hits' = hits \cup {"ev." \o Ev.events[i].k : i \in 1..Len(Ev.events)}
+       /\ hits' = hits \cup {"ev." \o Ev.events[i].k : i \in 1..Len(Ev.events)} \cup s3.h
                        \cup (IF \E x \in Dom(s2.chan) : s2.chan[x].resolved # {} THEN {"C03.resolved"} ELSE {})
+                       \cup (IF \E i \in Qpk : Len(Sent[i].m.an) > 0 THEN {"C10.known-answer"} ELSE {})
+                       \cup (IF \E j \in 1..Len(Ev.replies) : Ev.replies[j].k = "metrics" THEN {"C20.metrics"} ELSE {})
+                       \cup (IF (\E j \in 1..Len(Ev.replies) : Ev.replies[j].k = "metrics") /\ Len(arrs) = 0 /\ ~\E x \in Dom(s2.chan) : s2.chan[x].bound
+                             THEN {"C20.empty"} ELSE {})
   /\ inbox' = <<>> /\ cmds' = <<>>
-  /\ UNCHANGED scen
+  /\ UNCHANGED <<scen, ifs>>
 
 Reset == /\ Ev.e = "reset"
          /\ scen' = Ev.scen.id /\ tab' = <<>> /\ chan' = <<>> /\ cur' = <<>> /\ owedStop' = {} /\ down' = FALSE
+         /\ sched' = <<>> /\ fu' = <<>> /\ verifs' = {} /\ lastT' = 0 /\ ifs' = Ev.hosts[1] /\ arrs' = <<>>
          /\ inbox' = <<>> /\ cmds' = <<>>
          /\ UNCHANGED <<viol, hits>>
 Call == /\ Ev.e = "call"
         /\ cmds' = Append(cmds, Ev)
-        /\ UNCHANGED <<scen, tab, chan, cur, owedStop, down, inbox, viol, hits>>
+        /\ UNCHANGED <<scen, tab, chan, cur, owedStop, down, sched, fu, verifs, lastT, ifs, arrs, inbox, viol, hits>>
 Deliver == /\ Ev.e = "deliver"
            /\ inbox' = Append(inbox, Ev)
-           /\ UNCHANGED <<scen, tab, chan, cur, owedStop, down, cmds, viol, hits>>
-Skip == /\ Ev.e \in {"adv", "dead", "note", "spawn", "ifs"}
-        /\ UNCHANGED <<scen, tab, chan, cur, owedStop, down, inbox, cmds, viol, hits>>
+           /\ UNCHANGED <<scen, tab, chan, cur, owedStop, down, sched, fu, verifs, lastT, ifs, arrs, cmds, viol, hits>>
+IfsEv == /\ Ev.e = "ifs"
+         /\ ifs' = Ev.ifs
+         /\ UNCHANGED <<scen, tab, chan, cur, owedStop, down, sched, fu, verifs, lastT, arrs, inbox, cmds, viol, hits>>
+Skip == /\ Ev.e \in {"adv", "dead", "note", "spawn"}
+        /\ UNCHANGED <<scen, tab, chan, cur, owedStop, down, sched, fu, verifs, lastT, ifs, arrs, inbox, cmds, viol, hits>>
 
 Init == /\ l = 1 /\ scen = 0 /\ tab = <<>> /\ chan = <<>> /\ cur = <<>> /\ owedStop = {} /\ down = FALSE
+        /\ sched = <<>> /\ fu = <<>> /\ verifs = {} /\ lastT = 0 /\ ifs = <<>> /\ arrs = <<>>
         /\ inbox = <<>> /\ cmds = <<>> /\ viol = {} /\ hits = {}
-Next == l <= Len(Rec) /\ l' = l + 1 /\ (Reset \/ Call \/ Deliver \/ Skip \/ Iter)
+Next == l <= Len(Rec) /\ l' = l + 1 /\ (Reset \/ Call \/ Deliver \/ IfsEv \/ Skip \/ Iter)
 Spec == Init /\ [][Next]_vars
 
 Track == TLCSet(1, viol) /\ TLCSet(2, hits)
